@@ -215,6 +215,14 @@ def make_scenario(rs, kernel, idx, force_shift=False, flat=False, extreme=None):
         # steep non-Gaussian targets: |Δ log π| of 1e3…1e6 between neighbouring points at large |x|
         pw = 4 if fam == "steep4" else 6
         F, G = (lambda x: -float(np.sum(x ** pw)) / pw), (lambda x: -(x ** (pw - 1)))
+    elif fam == "laplace":
+        # piecewise-constant gradient: identical gradients at the current point and at every proposal in the same orthant
+        b_ = float(rs.choice([0.5, 1.0, 2.0]))
+        F, G = (lambda x: -float(np.sum(np.abs(x))) / b_), (lambda x: -np.sign(x) / b_)
+    elif fam == "linhalf":
+        # linear log-density on the positive orthant (constant gradient), zero density outside
+        F = lambda x: -float(np.sum(a * x)) if np.all(x >= 0) else -math.inf
+        G = lambda x: -a * np.ones_like(x)
     elif fam == "kink":
         # log-density finite everywhere, gradient NaN at the origin (0/0)
         def F(x):
@@ -545,6 +553,21 @@ def cp(x0):
 def build_target(cuqi, kernel, sc):
     """recorded wrappers of the scenario's target as a cuqi object"""
     D = cuqi.distribution
+    if getattr(sc, "bounds", None) is not None and not kernel.endswith("PCN"):
+        low, high = sc.bounds
+        if sc.bounds_kind == "uniform":
+            class _RecUniform(D.Uniform):                         # the real bounded-support distribution, sampled directly;
+                def logpdf(self_, x):                             # call-through recorder as a METHOD (callable instance attributes
+                    v = D.Uniform.logpdf(self_, x)                # would be taken for conditioning variables)
+                    sc.calls.append((arr(x).copy(), f1(v)))
+                    if sc.events is not None:
+                        sc.events.append(("q", len(sc.calls) - 1))
+                    return v
+            target = _RecUniform(low.copy(), high.copy())
+        else:
+            target = D.UserDefinedDistribution(dim=sc.dim, logpdf_func=sc.rec_F, gradient_func=sc.rec_G)
+            target.low, target.high = low.copy(), high.copy()     # user object exposing its box bounds
+        return target
     if sc.real is not None:
         post, lik, prior = sc.real()
         # record through thin wrappers of the real objects' methods (call-through)
@@ -944,6 +967,15 @@ def oracle(ctx, t, stats):
     if not t.queries or len(t.us) != 1:
         return fails
     xstar, val = t.queries[0]
+    if k in ("expMH", "legMH") and t.xi is not None and len(t.xi) == len(t.x) and np.all(np.isfinite(t.xi)) and np.all(np.isfinite(t.x)):
+        # the random-walk kernels accept with the SYMMETRIC ratio: the point evaluated must be x + scale*xi for the recorded draw
+        want = t.x + float(t.scale[0]) * t.xi
+        tol_ = max(1e-12, 4 * t.wtol) * (1.0 + float(np.max(np.abs(want))))
+        stats["rw-proposal-checked"] = stats.get("rw-proposal-checked", 0) + 1
+        if xstar.shape != want.shape or not np.allclose(xstar, want, rtol=0, atol=tol_, equal_nan=True):
+            fail("proposal-not-random-walk", [float(v) for v in want], [float(v) for v in xstar],
+                 "the proposal evaluated is not x + scale*xi for the recorded draw (e.g. projected onto the support): the proposal "
+                 "mechanism is then not the symmetric random walk whose ratio pi(x*)/pi(x) the accept test uses")
     ell = np_log(t.us[0])
     a = t.acc[0]
     rr = true_ratio_single(t, xstar)
@@ -1503,6 +1535,48 @@ def run(ctx):
             else:
                 launch(k, sc, ("plain", "burnin2")[rep_ % 2], nsteps + 3, big, x0, so)
             stats["pcn-scale-gt-1-runs"] = stats.get("pcn-scale-gt-1-runs", 0) + 1
+
+    # ---- round 8: (a) constant / piecewise-constant gradients (the gradient at the proposal EQUALS the cached one: the
+    # Hastings correction of MALA is -(x*-x).g, not 0), every kernel; (b) bounded-support targets that expose `low`/`high`
+    # (cuqi Uniform sampled directly, user objects with box bounds) with proposals overshooting the bounds, MH and CWMH
+    for ki, k in enumerate(KERNELS):
+        rs = np.random.RandomState(8800 * ctx.seed + 19 * ki + 2)
+        hists = ("fresh", "warmup") if k.startswith("exp") else ("plain", "adapt")
+        mala, pcn = k.endswith("MALA"), k.endswith("PCN")
+        for rep_ in range((8 if mala else 2) * (1 if not thorough else 5)):
+            fam = ("laplace", "linhalf")[rep_ % 2]
+            sc = make_scenario(rs, k, 8000 + so, extreme=fam)
+            sc.prop_mean = None
+            if pcn:
+                sc.prior_mean = np.zeros(sc.dim)
+            sc.cls = "std"
+            x0 = rs.randint(2, 8, size=sc.dim).astype(float)            # well inside one orthant
+            if fam == "laplace" and rep_ % 4 == 2:
+                x0 = -x0
+            scale = float(rs.choice([0.25, 0.5, 1.0])) if mala else (0.5 if pcn else float(rs.choice([0.5, 1.0])))
+            so += 1
+            launch(k, sc, hists[(rep_ // 2) % 2], nsteps, scale, x0, so)
+            stats["const-gradient-runs"] = stats.get("const-gradient-runs", 0) + 1
+        if k.endswith("MH"):
+            for rep_ in range(6 if not thorough else 24):
+                d_ = int(rs.choice([1, 2, 3])) if not k.endswith("CWMH") else int(rs.choice([2, 3]))
+                low = rs.randint(-2, 1, size=d_).astype(float)
+                high = low + rs.choice([1.0, 2.0], size=d_)
+                kind = ("uniform", "user")[rep_ % 2]
+                if kind == "uniform":
+                    vol = float(np.prod(high - low))
+                    F = lambda x, low=low, high=high, vol=vol: (-math.inf if (np.any(x < low) or np.any(x > high)) else float(np.log(1.0 / vol)))
+                    G = lambda x: np.zeros_like(x)
+                else:
+                    cen = (low + high) / 2
+                    F = lambda x, low=low, high=high, cen=cen: (-math.inf if (np.any(x < low) or np.any(x > high)) else -0.5 * float(np.sum((x - cen) ** 2)))
+                    G = lambda x, cen=cen: -(x - cen)
+                sc = Scenario(f"box-{kind}{so}", d_, F, G, exact=(kind == "user"))
+                sc.fam, sc.bounds, sc.bounds_kind = "box", (low, high), kind
+                x0 = low + (high - low) * rs.choice([0.25, 0.5, 0.75], size=d_)
+                so += 1
+                launch(k, sc, hists[rep_ % 2] if rep_ % 3 else hists[0], nsteps + 3, float(rs.choice([0.5, 1.0, 2.0])), x0, so)
+                stats["box-target-runs"] = stats.get("box-target-runs", 0) + 1
 
     # ---- session 3: whole sampler sessions (loops, burn-in, adaptation / tune, reload, scale assignment) replayed on the
     # loop model of Model/C02_chain.lean; their transitions join `records` (per-transition tie + oracle)
